@@ -669,6 +669,8 @@ theorem instance_cases (id : PayId) (s : State) (ops : List Op) (h : Instance id
     have := hsum.1 (by rw [hst]; simp); rw [hst] at this
     exact Or.inr (Or.inr (Or.inr (Or.inr (Or.inr ⟨⟨ps, t, hst⟩, this⟩))))
 
+instance decNoRestore (ops : List Op) : Decidable (NoRestore ops) := by unfold NoRestore; exact inferInstance
+
 instance decStays (id : PayId) : ∀ (s : State) (ops : List Op), Decidable (StaysPresent id s ops)
   | _, [] => isTrue trivial
   | _, [_] => isTrue trivial
